@@ -468,10 +468,9 @@ impl Disk
         let mut entry_ptr: Ptr = Ptr::ExtentEntry(0);
         let lx_per_x = self.dpb.exm as usize + 1;
         let slots_per_lx = slots_per_extent / lx_per_x;
-        let mut lx_count_tot = 0;
         let mut x_created_count = 0;
         let mut maybe_entry1: Option<Ptr> = None;
-        for x in 0..extents {
+        for x in 0..max_extents_needed {
             // loop over 16K logical extents
             debug!("write physical extent {}",x);
             let mut lx_used_in_x = 0;
@@ -484,8 +483,9 @@ impl Disk
                         // if there is no extent yet create it
                         if maybe_fx==None {
                             (entry_ptr,maybe_fx) = self.open_extent(&name,user,fimg,&dir,&mut maybe_entry1);
-                            lx_used_in_x += 1;
                         }
+                        // logical extents are counted up to the last one that holds data
+                        lx_used_in_x = lx + 1;
                         if let Some(fx) = maybe_fx.as_mut() {
                             fx.set_block_ptr(loc_slot, lx, iblock, &self.dpb);
                             dir.set_entry(&entry_ptr, fx);
@@ -495,14 +495,14 @@ impl Disk
                 }
             }
             // if not the last extent, consider all logical extents used
-            if x+1 < extents {
+            if x+1 < max_extents_needed {
                 lx_used_in_x = lx_per_x;
             }
             debug!("extent used {} logical extents",lx_used_in_x);
-            // update totals and save the extent to the directory buffer
-            lx_count_tot += lx_used_in_x;
+            // update totals and save the extent to the directory buffer; extents made only of holes are skipped but still counted
+            let lx_count_tot = x*lx_per_x + lx_used_in_x;
             if let Some(fx) = maybe_fx.as_mut() {
-                self.close_extent(&entry_ptr, fx, &mut dir, lx_count_tot, x+1 == extents, &fimg);
+                self.close_extent(&entry_ptr, fx, &mut dir, lx_count_tot, x+1 == max_extents_needed, &fimg);
                 maybe_fx = None;
                 x_created_count += 1;
             }
